@@ -64,6 +64,20 @@ pub fn denull(v: &mut serde_json::Value) {
     }
 }
 
+fn copy_dir(from: &std::path::Path, to: &std::path::Path) -> std::io::Result<()> {
+    std::fs::create_dir_all(to)?;
+    for e in std::fs::read_dir(from)? {
+        let e = e?;
+        let dst = to.join(e.file_name());
+        if e.file_type()?.is_dir() {
+            copy_dir(&e.path(), &dst)?;
+        } else if e.file_name() != "LOCK" {
+            std::fs::copy(e.path(), &dst)?;
+        }
+    }
+    Ok(())
+}
+
 /// vh play <schedules.ndjson> <trace.ndjson> [net] [traces on|off]
 fn play(args: &[String]) -> i32 {
     use std::io::{BufRead, Write};
@@ -75,6 +89,7 @@ fn play(args: &[String]) -> i32 {
     let mut runs = 0u64;
     let mut events = 0u64;
     let mut calls = 0u64;
+    let mut template: Option<(u64, tempfile::TempDir)> = None;
     for line in std::io::BufReader::new(f).lines() {
         let line = line.unwrap();
         if line.trim().is_empty() {
@@ -82,6 +97,34 @@ fn play(args: &[String]) -> i32 {
         }
         let sched: serde_json::Value = serde_json::from_str(&line).expect("schedule json");
         let dir = tempfile::TempDir::new().unwrap();
+        // a fork-crossing configuration starts from `base` mined and committed empty blocks (Brc20Ref.Base): they are
+        // produced once per process in a template directory (the real brc20_mine + brc20_commitToDatabase), which is
+        // closed and copied for every run
+        let base = sched["base"].as_u64().unwrap_or(0);
+        if base > 0 {
+            if template.as_ref().map(|(b, _)| *b) != Some(base) {
+                let tdir = tempfile::TempDir::new().unwrap();
+                let mut tp = match player::Player::new(rt.clone(), tdir.path(), net, traces) {
+                    Ok(p) => p,
+                    Err(e) => {
+                        eprintln!("cannot open template instance: {}", e);
+                        return 2;
+                    }
+                };
+                let a = tp.inst.call("brc20_mine", json!([base, 5]));
+                let b = tp.inst.call("brc20_commitToDatabase", json!([]));
+                tp.inst.close();
+                if !a.is_ok() || !b.is_ok() {
+                    eprintln!("prelude failed: {} / {}", a.err_text(), b.err_text());
+                    return 2;
+                }
+                template = Some((base, tdir));
+            }
+            if let Err(e) = copy_dir(template.as_ref().unwrap().1.path(), dir.path()) {
+                eprintln!("cannot copy the template directory: {}", e);
+                return 2;
+            }
+        }
         let mut p = match player::Player::new(rt.clone(), dir.path(), net, traces) {
             Ok(p) => p,
             Err(e) => {
@@ -89,19 +132,8 @@ fn play(args: &[String]) -> i32 {
                 return 2;
             }
         };
-        p.light_obs = sched["light"].as_bool().unwrap_or(false);
+        p.light_obs = sched["light"].as_bool().unwrap_or(false) || base > 0;
         runs += 1;
-        // a fork-crossing configuration starts from `base` mined and committed empty blocks (Brc20Ref.Base)
-        let base = sched["base"].as_u64().unwrap_or(0);
-        if base > 0 {
-            let a = p.inst.call("brc20_mine", json!([base, 5]));
-            let b = p.inst.call("brc20_commitToDatabase", json!([]));
-            if !a.is_ok() || !b.is_ok() {
-                eprintln!("prelude failed: {} / {}", a.err_text(), b.err_text());
-                return 2;
-            }
-            p.light_obs = true;
-        }
         writeln!(out, "{}", json!({"ev": "Reset", "run": sched["run"], "res": "ok", "traces": traces, "net": net, "base": base})).unwrap();
         for step in sched["steps"].as_array().cloned().unwrap_or_default() {
             let mut ev = p.step(&step);
